@@ -230,6 +230,10 @@ impl Sim {
         self.lock().frozen = true;
     }
 
+    pub fn is_frozen(&self) -> bool {
+        self.lock().frozen
+    }
+
     pub fn ev<F: FnOnce() -> String>(&self, f: F) {
         let mut g = self.lock();
         if g.trace_on && !g.frozen {
